@@ -197,9 +197,16 @@ func init() {
 	externals["(*strings.Builder).WriteRune"] = func(fr *frame, args []value) value {
 		i := fr.i
 		p := args[0].(*value)
+		buf := i.builderBuf(p)
+		if sr, ok := args[1].(sym); ok {
+			// symbolic rune: the encoding class is decided, the bytes stay symbolic
+			cells := strCells(encodeRuneSym(i, sr))
+			buf = append(buf, cells...)
+			i.setBuilderBuf(p, buf)
+			return tuple{len(cells), iface{}}
+		}
 		r := rune(i.asIntC(args[1]))
 		bs := []byte(string(r))
-		buf := i.builderBuf(p)
 		for _, b := range bs {
 			buf = append(buf, b)
 		}
